@@ -924,6 +924,79 @@ def c04_stereo(case):
         return bad("C04:" + r[0], "%r -> %r -> %r: %s" % (s, e[1], d[1], r[1]))
     return ok()
 
+
+# ---------------------------------------------------------------------------
+# C05
+
+
+RELAXED = {"H": 1, "F": 1, "Cl": 7, "Br": 7, "I": 7, "B": 3, "B+1": 2, "B-1": 4, "O": 2, "O+1": 3, "O-1": 1,
+           "N": 5, "N+1": 4, "N-1": 2, "C": 4, "C+1": 3, "C-1": 3, "P": 7, "P+1": 6, "P-1": 8,
+           "S": 6, "S+1": 5, "S-1": 5, "?": 12}
+
+
+def c05_kekulize(case):
+    set_table(dict(RELAXED))
+    try:
+        s = case["smiles"]
+        m_in = oread.read_smiles(s)
+        if m_in.faults:
+            return ok("unreadable")
+        atoms, abonds = judge.aromatic_system(m_in)
+        if not atoms:
+            return ok("no aromatic atoms")
+        e = _enc(s, strict=True)
+        if e[0] == "exc":
+            return ok("other exception (C09)")
+        if e[0] != "ok":
+            if judge.rejectable(m_in, RELAXED) is False:
+                return bad("C05:rejects-kekulizable", "encoder(%r) raises EncoderError (%s) although the aromatic system (standard atom kinds) has an alternating assignment and no atom exceeds its capacity" % (s[:160], e[1].strip().split("\n")[0][:60]))
+            return ok("rejected")
+        d = _dec(e[1])
+        if d[0] != "ok":
+            return ok("decode fails (C10)")
+        m_out = oread.read_smiles(d[1])
+        if m_out.faults:
+            return ok("output unreadable (C01)")
+        r = compare_mols(m_in, m_out)
+        if r is not None:
+            return bad("C05:skeleton:" + r[0], "%r -> %r -> %r: %s" % (s[:160], e[1][:80], d[1][:160], r[1]))
+        r = judge.kekule_problem(m_in, m_out)
+        if r is not None:
+            return bad("C05:" + r[0], "%r -> %r: %s" % (s[:160], d[1][:160], r[1]))
+        if judge.kekulizable(m_in) is False:
+            return bad("C05:accepts-non-kekulizable", "encoder(%r) succeeds although no alternating assignment exists" % s[:160])
+        return ok()
+    finally:
+        reset_table()
+
+
+def c05_matching(case):
+    from selfies.utils.matching_utils import find_perfect_matching
+    g = [list(x) for x in case["graph"]]
+    edges = [(i, j) for i, l in enumerate(g) for j in l if i < j]
+    want = judge.has_perfect_matching(range(len(g)), edges)
+    got = find_perfect_matching([list(x) for x in g])
+    if got is None:
+        if want:
+            return bad("C05:matching-missed", "find_perfect_matching(%r) returned None although a perfect matching exists" % (g,))
+        return ok()
+    okm = len(got) == len(g) and all(got[i] is not None and got[got[i]] == i and got[i] in g[i] for i in range(len(g)))
+    if not okm:
+        return bad("C05:matching-invalid", "find_perfect_matching(%r) = %r is not a perfect matching" % (g, got))
+    return ok()
+
+
+
+def c05_order(case):
+    set_table(dict(RELAXED))
+    try:
+        a, b = _enc(case["a"], strict=True), _enc(case["b"], strict=True)
+        if (a[0] == "ok") != (b[0] == "ok"):
+            return bad("C05:order-dependent", "encoder accepts %r -> %s but for the same molecule spelled %r -> %s" % (case["a"][:120], a[0], case["b"][:120], b[0]))
+        return ok()
+    finally:
+        reset_table()
+
 # ---------------------------------------------------------------------------
 
 KINDS = {
@@ -949,6 +1022,9 @@ KINDS = {
     "roundtrip": c03_roundtrip,
     "stable": c10_stable,
     "stereo": c04_stereo,
+    "kekulize": c05_kekulize,
+    "matching": c05_matching,
+    "kek_order": c05_order,
     "state_fn": lemma_state_fn,
     "ring_step": lemma_ring_step,
 }
